@@ -148,6 +148,20 @@ impl ProRataMonitor {
 
 impl Monitor for ProRataMonitor {
     fn after(&mut self, h: &Hist, pre: &Snap, post: &Snap, op: &Op, r: &OpResult, l: &mut Local) -> Result<(), String> {
+        if let Did::Rejected(code) = &r.did {
+            // crediting and paying out have no reason to be refused: collect_fees always, update_fees_and_rewards whenever the position
+            // holds liquidity and the right tick arrays are named
+            match op {
+                Op::CollectFees { .. } => return Err(format!("collect_fees was refused with {code}")),
+                Op::UpdateFees { .. } if !r.skewed => {
+                    let liq = r.pos.and_then(|p| pre.positions[p].as_ref()).map(|s| s.liquidity).unwrap_or(0);
+                    if liq > 0 {
+                        return Err(format!("update_fees_and_rewards on a position with liquidity {liq} was refused with {code}"));
+                    }
+                }
+                _ => {}
+            }
+        }
         if r.did != Did::Ok {
             return Ok(());
         }
